@@ -10,7 +10,7 @@ for p in sorted(glob.glob(os.path.join(VERIF, 'seeded', '*', 'meta.json'))):
     name = os.path.basename(os.path.dirname(p))
     summ = (m.get('summary') or m.get('mechanism') or '')[:170].replace('|', '/').replace('\n', ' ')
     needs = (m.get('needs') or '')[:150].replace('|', '/').replace('\n', ' ')
-    hist = 'caught' if m.get('caught') else 'MISSED'
+    hist = 'caught' if m.get('caught') else (m.get('disposition') or 'MISSED')
     hh = m.get('history') or []
     hh = [hh] if isinstance(hh, str) else hh
     if any('initially MISSED' in h for h in hh) and not any('tool bug' in h for h in hh):
